@@ -174,10 +174,6 @@ Fixpoint frame_key (ts : list tok) : string :=
   | [] => "-"
   | TFrame f :: r =>
       if res_opt_eqb (parse_notify f) (rfc_reply_id f) then frame_key r
-      else if known_C19_iphdr f then "echo_reply_bad_ip_header"
-      else if known_C19_family f then "echo_reply_wrong_icmp_family"
-      else if known_C19_totallen f then "echo_reply_beyond_ip4_totallen"
-      else if known_C19_paylen f then "echo_reply_beyond_ip6_payloadlen"
       else "unclassified_frame_divergence"
   | _ :: r => frame_key r
   end.
